@@ -18,6 +18,7 @@
 #include <hgraph/types/subgraph_wiring.h>
 #include <hgraph/types/wired_fn.h>
 
+#include <algorithm>
 #include <array>
 #include <map>
 #include <optional>
@@ -48,6 +49,7 @@ namespace
         std::int64_t acc{0};     // state += acc * sum(modified inputs) on a tick
         std::int64_t cnt{0};     // state += cnt on a tick
         std::int64_t wk{0};      // state += wk on a wake
+        std::int64_t erun{0};    // emit on every run of the user code, whatever caused it
     };
 
     struct Ctx
@@ -58,8 +60,30 @@ namespace
         std::map<const void *, std::int64_t>           inst;         // child graph memory -> instance ordinal
         std::map<const void *, std::int64_t>           slot;         // child graph memory -> slot ordinal (first seen)
         std::int64_t                                   ninst{0};
+        bool                                           ref_mode{false};
     };
     Ctx *g_ctx = nullptr;
+
+    // every observation goes through here; in the reference pass of a nested-body case (the same case
+    // with the body inlined) only the recorder lines are kept, re-coded 20 -> 40, 21 -> 41
+    void emit(const Line &l)
+    {
+        if (g_ctx->ref_mode)
+        {
+            if (l[0] == 20 || l[0] == 21) { Line r = l; r[0] += 20; g_ctx->out->line(r); }
+            return;
+        }
+        g_ctx->out->line(l);
+    }
+    void emit(std::initializer_list<std::int64_t> xs) { emit(Line(xs)); }
+
+    // the branch graph (direct child of the switch node) that encloses g: nested wrappers inside a branch are transparent
+    bool branch_level(const GraphView &g) { return g.is_nested() && !g.as_nested().parent_node().graph().is_nested(); }
+    const void *branch_data(GraphView g)
+    {
+        while (g.is_nested() && g.as_nested().parent_node().graph().is_nested()) { g = g.as_nested().parent_node().graph(); }
+        return g.data();
+    }
 
     std::int64_t inst_of(const void *p)
     {
@@ -102,7 +126,7 @@ namespace
                    const std::vector<InSnap> &ins)
     {
         const BodySpec    &b    = g_ctx->tab[slot];
-        const std::int64_t inst = inst_of(node.graph().data());
+        const std::int64_t inst = inst_of(branch_data(node.graph()));
         const bool         woke = sched.is_scheduled_now();
         bool               ticked = false;
         std::int64_t       sum_mod = 0, sum_valid = 0;
@@ -115,21 +139,22 @@ namespace
             if (i.valid) { sum_valid += i.value; }
             if (i.valid && i.modified) { ticked = true; sum_mod += i.value; }
         }
-        g_ctx->out->line(l);
+        emit(l);
         std::int64_t s = st.get();
         if (ticked) { s += b.acc * sum_mod + b.cnt; }
         if (woke) { s += b.wk; }
         st.set(s);
-        if ((ticked && b.etick) || (woke && b.ewake))
+        if (b.erun || (ticked && b.etick) || (woke && b.ewake))
         {
             const std::int64_t v = b.c + b.m * s + b.l * sum_valid;
-            out.set(Int{v});
-            g_ctx->out->line({27, us(now), inst, v});
+            if constexpr (requires { out.set(Int{v}); }) { out.set(Int{v}); }
+            else { static_cast<void>(out.add(Int{v})); }   // TSS<Int> output: publish v as a member
+            emit({27, us(now), inst, v});
         }
         if ((ticked && b.rtick) || (woke && b.rwake))
         {
             sched.schedule(dt(us(now) + b.d));
-            g_ctx->out->line({28, us(now), inst, us(now) + b.d});
+            emit({28, us(now), inst, us(now) + b.d});
         }
     }
 
@@ -140,109 +165,142 @@ namespace
         return InSnap{v, in.modified(), v ? (std::int64_t)in.value() : 0};
     }
 
-    template <int S, int M> struct Body;
+    // SH = 0: scalar TS<Int> output;  SH = 1: TSS<Int> output (every emission adds a member)
+    template <int SH> struct OutShape { using type = TS<Int>; };
+    template <> struct OutShape<1> { using type = TSS<Int>; };
+    template <int SH> using OutS = typename OutShape<SH>::type;
 
-    template <int S>
-    struct Body<S, 0>
+    template <int S, int M, int SH> struct Body;
+
+    template <int S, int SH>
+    struct Body<S, 0, SH>
     {
         static constexpr auto name = "hgv_body0";
         static void           start(NodeScheduler sched, DateTime now) { body_start(S, sched, now); }
-        static void eval(NodeView node, NodeScheduler sched, DateTime now, State<Int> st, Out<TS<Int>> out)
+        static void eval(NodeView node, NodeScheduler sched, DateTime now, State<Int> st, Out<OutS<SH>> out)
         {
             body_eval(S, node, sched, now, st, out, {});
         }
     };
-    template <int S>
-    struct Body<S, 1>
+    template <int S, int SH>
+    struct Body<S, 1, SH>
     {
         static constexpr auto name = "hgv_body1";
         static void           start(NodeScheduler sched, DateTime now) { body_start(S, sched, now); }
-        static void eval(NodeView node, In<"i0", TS<Int>> i0, NodeScheduler sched, DateTime now, State<Int> st, Out<TS<Int>> out)
+        static void eval(NodeView node, In<"i0", TS<Int>> i0, NodeScheduler sched, DateTime now, State<Int> st, Out<OutS<SH>> out)
         {
             body_eval(S, node, sched, now, st, out, {snap(i0)});
         }
     };
-    template <int S>
-    struct Body<S, 2>
+    template <int S, int SH>
+    struct Body<S, 2, SH>
     {
         static constexpr auto name = "hgv_body2";
         static void           start(NodeScheduler sched, DateTime now) { body_start(S, sched, now); }
         static void eval(NodeView node, In<"i0", TS<Int>> i0, In<"i1", TS<Int>> i1, NodeScheduler sched, DateTime now,
-                         State<Int> st, Out<TS<Int>> out)
+                         State<Int> st, Out<OutS<SH>> out)
         {
             body_eval(S, node, sched, now, st, out, {snap(i0), snap(i1)});
         }
     };
-    template <int S>
-    struct Body<S, 3>
+    template <int S, int SH>
+    struct Body<S, 3, SH>
     {
         static constexpr auto name = "hgv_body3";
         static void           start(NodeScheduler sched, DateTime now) { body_start(S, sched, now); }
         static void eval(NodeView node, In<"i0", TS<Int>> i0, In<"i1", TS<Int>> i1, In<"i2", TS<Int>> i2, NodeScheduler sched,
-                         DateTime now, State<Int> st, Out<TS<Int>> out)
+                         DateTime now, State<Int> st, Out<OutS<SH>> out)
         {
             body_eval(S, node, sched, now, st, out, {snap(i0), snap(i1), snap(i2)});
         }
     };
 
-    // ---- branch graphs: (table slot S, number of outer ts args N, consumes the key K) ----
-    template <int S, int N, bool K> struct Br;
-    template <int S> struct Br<S, 0, false>
+    // ---- branch graphs: (table slot S, number of outer ts args N, consumes the key K, output shape SH) ----
+    // ND = how many times the body is wrapped in a nested graph node (nested_<G>) inside the branch graph
+    template <int S, int N, bool K, int SH, int ND> struct Br;
+    template <int S, int SH, int ND> struct Br<S, 0, false, SH, ND>
     {
-        static constexpr auto name = "hgv_br0";
-        static Port<TS<Int>>  compose(Wiring &w) { return wire<Body<S, 0>>(w); }
-    };
-    template <int S> struct Br<S, 0, true>
-    {
-        static constexpr auto name = "hgv_brk0";
-        static Port<TS<Int>>  compose(Wiring &w, NamedPort<"key", TS<Int>> key) { return wire<Body<S, 1>>(w, Port<TS<Int>>{key}); }
-    };
-    template <int S> struct Br<S, 1, false>
-    {
-        static constexpr auto name = "hgv_br1";
-        static Port<TS<Int>>  compose(Wiring &w, Port<TS<Int>> a) { return wire<Body<S, 1>>(w, a); }
-    };
-    template <int S> struct Br<S, 1, true>
-    {
-        static constexpr auto name = "hgv_brk1";
-        static Port<TS<Int>>  compose(Wiring &w, NamedPort<"key", TS<Int>> key, Port<TS<Int>> a)
+        static constexpr auto  name = "hgv_br0";
+        static Port<OutS<SH>>  compose(Wiring &w)
         {
-            return wire<Body<S, 2>>(w, Port<TS<Int>>{key}, a);
+            if constexpr (ND == 0) { return wire<Body<S, 0, SH>>(w); }
+            else { return nested_<Br<S, 0, false, SH, ND - 1>>(w); }
         }
     };
-    template <int S> struct Br<S, 2, false>
+    template <int S, int SH, int ND> struct Br<S, 0, true, SH, ND>
     {
-        static constexpr auto name = "hgv_br2";
-        static Port<TS<Int>>  compose(Wiring &w, Port<TS<Int>> a, Port<TS<Int>> b) { return wire<Body<S, 2>>(w, a, b); }
-    };
-    template <int S> struct Br<S, 2, true>
-    {
-        static constexpr auto name = "hgv_brk2";
-        static Port<TS<Int>>  compose(Wiring &w, NamedPort<"key", TS<Int>> key, Port<TS<Int>> a, Port<TS<Int>> b)
+        static constexpr auto  name = "hgv_brk0";
+        static Port<OutS<SH>>  compose(Wiring &w, NamedPort<"key", TS<Int>> key)
         {
-            return wire<Body<S, 3>>(w, Port<TS<Int>>{key}, a, b);
+            if constexpr (ND == 0) { return wire<Body<S, 1, SH>>(w, Port<TS<Int>>{key}); }
+            else { return nested_<Br<S, 0, true, SH, ND - 1>>(w, Port<TS<Int>>{key}); }
+        }
+    };
+    template <int S, int SH, int ND> struct Br<S, 1, false, SH, ND>
+    {
+        static constexpr auto  name = "hgv_br1";
+        static Port<OutS<SH>>  compose(Wiring &w, Port<TS<Int>> a)
+        {
+            if constexpr (ND == 0) { return wire<Body<S, 1, SH>>(w, a); }
+            else { return nested_<Br<S, 1, false, SH, ND - 1>>(w, a); }
+        }
+    };
+    template <int S, int SH, int ND> struct Br<S, 1, true, SH, ND>
+    {
+        static constexpr auto  name = "hgv_brk1";
+        static Port<OutS<SH>>  compose(Wiring &w, NamedPort<"key", TS<Int>> key, Port<TS<Int>> a)
+        {
+            if constexpr (ND == 0) { return wire<Body<S, 2, SH>>(w, Port<TS<Int>>{key}, a); }
+            else { return nested_<Br<S, 1, true, SH, ND - 1>>(w, Port<TS<Int>>{key}, a); }
+        }
+    };
+    template <int S, int SH, int ND> struct Br<S, 2, false, SH, ND>
+    {
+        static constexpr auto  name = "hgv_br2";
+        static Port<OutS<SH>>  compose(Wiring &w, Port<TS<Int>> a, Port<TS<Int>> b)
+        {
+            if constexpr (ND == 0) { return wire<Body<S, 2, SH>>(w, a, b); }
+            else { return nested_<Br<S, 2, false, SH, ND - 1>>(w, a, b); }
+        }
+    };
+    template <int S, int SH, int ND> struct Br<S, 2, true, SH, ND>
+    {
+        static constexpr auto  name = "hgv_brk2";
+        static Port<OutS<SH>>  compose(Wiring &w, NamedPort<"key", TS<Int>> key, Port<TS<Int>> a, Port<TS<Int>> b)
+        {
+            if constexpr (ND == 0) { return wire<Body<S, 3, SH>>(w, Port<TS<Int>>{key}, a, b); }
+            else { return nested_<Br<S, 2, true, SH, ND - 1>>(w, Port<TS<Int>>{key}, a, b); }
         }
     };
 
-    template <int N, bool K, int... S>
+    template <int N, bool K, int SH, int ND, int... S>
     WiredFn pick_slot(int slot, std::integer_sequence<int, S...>)
     {
         WiredFn r{};
-        ((slot == S ? (r = fn<Br<S, N, K>>(), 0) : 0), ...);
+        ((slot == S ? (r = fn<Br<S, N, K, SH, ND>>(), 0) : 0), ...);
         return r;
     }
-    WiredFn branch_fn(int nts, bool usekey, int slot)
+    template <int SH, int ND>
+    WiredFn branch_fn_sh(int nts, bool usekey, int slot)
     {
         auto seq = std::make_integer_sequence<int, NSLOT>{};
         switch (nts * 2 + (usekey ? 1 : 0))
         {
-            case 0: return pick_slot<0, false>(slot, seq);
-            case 1: return pick_slot<0, true>(slot, seq);
-            case 2: return pick_slot<1, false>(slot, seq);
-            case 3: return pick_slot<1, true>(slot, seq);
-            case 4: return pick_slot<2, false>(slot, seq);
-            default: return pick_slot<2, true>(slot, seq);
+            case 0: return pick_slot<0, false, SH, ND>(slot, seq);
+            case 1: return pick_slot<0, true, SH, ND>(slot, seq);
+            case 2: return pick_slot<1, false, SH, ND>(slot, seq);
+            case 3: return pick_slot<1, true, SH, ND>(slot, seq);
+            case 4: return pick_slot<2, false, SH, ND>(slot, seq);
+            default: return pick_slot<2, true, SH, ND>(slot, seq);
         }
+    }
+    // nested wrappers are offered for the scalar shape only (keeps the number of instantiations down)
+    WiredFn branch_fn(int nts, bool usekey, int slot, int shape, int depth)
+    {
+        if (shape == 1) { return branch_fn_sh<1, 0>(nts, usekey, slot); }
+        if (depth == 1) { return branch_fn_sh<0, 1>(nts, usekey, slot); }
+        if (depth == 2) { return branch_fn_sh<0, 2>(nts, usekey, slot); }
+        return branch_fn_sh<0, 0>(nts, usekey, slot);
     }
 
     // ---- recording sink on the switch output ----
@@ -251,7 +309,23 @@ namespace
         static constexpr auto name = "hgv_rec";
         static void           eval(In<"x", TS<Int>> x, DateTime now)
         {
-            g_ctx->out->line({20, us(now), x.valid(), x.modified(), x.valid() ? (std::int64_t)x.value() : 0});
+            emit({20, us(now), x.valid(), x.modified(), x.valid() ? (std::int64_t)x.value() : 0});
+        }
+    };
+
+    // recorder on a TSS<Int> switch output: value and delta of the cycle, each sorted
+    struct RecS
+    {
+        static constexpr auto name = "hgv_rec_set";
+        static void           eval(In<"x", TSS<Int>> x, DateTime now)
+        {
+            auto vals = x.values(); auto add = x.added(); auto rem = x.removed();
+            std::sort(vals.begin(), vals.end()); std::sort(add.begin(), add.end()); std::sort(rem.begin(), rem.end());
+            Line l{21, us(now), x.valid(), x.modified(), (std::int64_t)vals.size(), (std::int64_t)add.size(), (std::int64_t)rem.size()};
+            for (auto v : vals) { l.push_back(v); }
+            for (auto v : add) { l.push_back(v); }
+            for (auto v : rem) { l.push_back(v); }
+            emit(l);
         }
     };
 
@@ -260,28 +334,28 @@ namespace
     {
         void on_before_graph_evaluation(const GraphView &g) override
         {
-            if (g.is_nested()) { g_ctx->out->line({24, us(g.evaluation_time()), inst_of(g.data())}); }
-            else { g_ctx->out->line({10, us(g.evaluation_time())}); }
+            if (branch_level(g)) { emit({24, us(g.evaluation_time()), inst_of(g.data())}); }
+            else if (!g.is_nested()) { emit({10, us(g.evaluation_time())}); }
         }
         void on_before_node_evaluation(const NodeView &n) override
         {
             auto g = n.graph();
-            if (g.is_nested()) { g_ctx->out->line({25, us(g.evaluation_time()), inst_of(g.data()), (std::int64_t)n.node_index()}); }
-            else if (n.node_kind() == NodeKind::Nested) { g_ctx->out->line({11, us(g.evaluation_time())}); }
+            if (branch_level(g)) { emit({25, us(g.evaluation_time()), inst_of(g.data()), (std::int64_t)n.node_index()}); }
+            else if (!g.is_nested() && n.node_kind() == NodeKind::Nested) { emit({11, us(g.evaluation_time())}); }
         }
         void on_after_start_graph(const GraphView &g) override
         {
-            if (!g.is_nested()) { return; }
+            if (!branch_level(g)) { return; }
             const void *p = g.data();
             g_ctx->inst[p] = g_ctx->ninst++;
             if (!g_ctx->slot.count(p)) { const auto k = (std::int64_t)g_ctx->slot.size(); g_ctx->slot[p] = k; }
-            g_ctx->out->line({22, us(g.evaluation_time()), inst_of(p), g_ctx->slot[p]});
+            emit({22, us(g.evaluation_time()), inst_of(p), g_ctx->slot[p]});
         }
         void on_after_stop_graph(const GraphView &g) override
         {
-            if (!g.is_nested()) { return; }
+            if (!branch_level(g)) { return; }
             const void *p = g.data();
-            g_ctx->out->line({23, us(g.evaluation_time()), inst_of(p), g_ctx->slot.count(p) ? g_ctx->slot[p] : -1});
+            emit({23, us(g.evaluation_time()), inst_of(p), g_ctx->slot.count(p) ? g_ctx->slot[p] : -1});
         }
     };
 
@@ -291,14 +365,14 @@ namespace
         Ctx ctx;
         ctx.out = &out;
         g_ctx   = &ctx;
-        std::int64_t start = 1, end = 10, nts = 1, reload = 0;
+        std::int64_t start = 1, end = 10, nts = 1, reload = 0, shape = 0, depth = 0;
         struct CaseEnt { std::int64_t key, slot, usekey; };
         std::vector<CaseEnt>   ents;
         std::optional<CaseEnt> dflt;
         for (const Line &l : c)
         {
             if (l[0] == 1 && l.size() >= 3) { start = l[1]; end = l[2]; }
-            else if (l[0] == 2 && l.size() >= 3) { nts = l[1]; reload = l[2]; }
+            else if (l[0] == 2 && l.size() >= 3) { nts = l[1]; reload = l[2]; shape = l.size() >= 4 ? l[3] : 0; depth = l.size() >= 5 ? l[4] : 0; }
             else if (l[0] == 3 && l.size() >= 4) { ents.push_back({l[1], l[2], l[3]}); }
             else if (l[0] == 4 && l.size() >= 3) { dflt = CaseEnt{0, l[1], l[2]}; }
             else if (l[0] == 5 && l.size() >= 14 && l[1] >= 0 && l[1] < NSLOT)
@@ -306,35 +380,41 @@ namespace
                 BodySpec &b = ctx.tab[l[1]];
                 b.sos = l[2]; b.etick = l[3]; b.ewake = l[4]; b.rtick = l[5]; b.rwake = l[6]; b.d = l[7];
                 b.c = l[8]; b.m = l[9]; b.l = l[10]; b.acc = l[11]; b.cnt = l[12]; b.wk = l[13];
+                b.erun = l.size() >= 15 ? l[14] : 0;
             }
             else if (l[0] == 6 && l.size() >= 4 && l[1] >= 0 && l[1] <= 2) { ctx.src[l[1]].emplace(l[2], l[3]); }
         }
-        if (nts < 0 || nts > 2 || (ents.empty() && !dflt) || start < 1 || start >= end || end > 100000) { out.line({29, 9}); return; }
+        if (nts < 0 || nts > 2 || shape < 0 || shape > 1 || depth < 0 || depth > 2 || (depth > 0 && shape != 0) || (ents.empty() && !dflt) || start < 1 || start >= end || end > 100000) { out.line({29, 9}); return; }
         for (auto &e : ents) { if (e.slot < 0 || e.slot >= NSLOT) { out.line({29, 9}); return; } }
         if (dflt && (dflt->slot < 0 || dflt->slot >= NSLOT)) { out.line({29, 9}); return; }
 
+        // a nested-body case is run twice: first with the body inlined (reference pass, recorder lines only,
+        // re-coded 40/41), then with the body wrapped `depth` times in a nested graph node
+        auto run_once = [&](int nd, bool ref) {
+        ctx.ref_mode = ref;
+        ctx.inst.clear(); ctx.slot.clear(); ctx.ninst = 0;
         try
         {
             Wiring w;
             auto   key = wire<Src<0>>(w);
             stdlib::SwitchCases cases;
-            for (auto &e : ents) { cases.cases.push_back(stdlib::SwitchCase{Value{Int{e.key}}, branch_fn((int)nts, e.usekey != 0, (int)e.slot)}); }
-            if (dflt) { cases.default_branch = branch_fn((int)nts, dflt->usekey != 0, (int)dflt->slot); }
+            for (auto &e : ents) { cases.cases.push_back(stdlib::SwitchCase{Value{Int{e.key}}, branch_fn((int)nts, e.usekey != 0, (int)e.slot, (int)shape, nd)}); }
+            if (dflt) { cases.default_branch = branch_fn((int)nts, dflt->usekey != 0, (int)dflt->slot, (int)shape, nd); }
             cases.reload_on_ticked = reload != 0;
-            Port<TS<Int>> sw;
-            if (nts == 0) { sw = wire<stdlib::switch_>(w, key, cases).template as<TS<Int>>(); }
-            else if (nts == 1)
-            {
-                auto a = wire<Src<1>>(w);
-                sw     = wire<stdlib::switch_>(w, key, cases, a).template as<TS<Int>>();
-            }
-            else
-            {
+            auto wire_switch = [&]() {
+                if (nts == 0) { return wire<stdlib::switch_>(w, key, cases); }
+                if (nts == 1)
+                {
+                    auto a = wire<Src<1>>(w);
+                    return wire<stdlib::switch_>(w, key, cases, a);
+                }
                 auto a = wire<Src<1>>(w);
                 auto b = wire<Src<2>>(w);
-                sw     = wire<stdlib::switch_>(w, key, cases, a, b).template as<TS<Int>>();
-            }
-            wire<Rec>(w, sw);
+                return wire<stdlib::switch_>(w, key, cases, a, b);
+            };
+            auto sw = wire_switch();
+            if (shape == 1) { wire<RecS>(w, sw.template as<TSS<Int>>()); }
+            else { wire<Rec>(w, sw.template as<TS<Int>>()); }
             GraphBuilder gb = std::move(w).finish();
 
             Obs                  obs;
@@ -350,7 +430,7 @@ namespace
                 if (wh.find("no branch is registered") != std::string::npos) { code = 2; }
                 else if (wh.find("in the past") != std::string::npos) { code = 3; }
                 else if (wh.find("does not occupy the reusable slot") != std::string::npos) { code = 4; }
-                out.line({29, code});
+                emit({29, code});
                 if (code == 1) { std::fprintf(stderr, "error: %s\n", wh.c_str()); }
             }
             // final state of the switch output
@@ -361,7 +441,16 @@ namespace
                 if (n.node_kind() != NodeKind::Nested) { continue; }
                 auto       o     = n.output(dt(end));
                 const bool valid = o.valid();
-                out.line({30, valid, valid ? o.value().checked_as<std::int64_t>() : 0, us(o.last_modified_time())});
+                if (shape == 1)
+                {
+                    std::vector<std::int64_t> vals;
+                    if (valid) { for (const auto &v : o.as_set().values()) { vals.push_back(v.template checked_as<std::int64_t>()); } }
+                    std::sort(vals.begin(), vals.end());
+                    Line l{31, valid, us(o.last_modified_time()), (std::int64_t)vals.size()};
+                    for (auto v : vals) { l.push_back(v); }
+                    emit(l);
+                }
+                else { emit({30, valid, valid ? o.value().checked_as<std::int64_t>() : 0, us(o.last_modified_time())}); }
             }
         }
         catch (const std::exception &e)
@@ -369,6 +458,9 @@ namespace
             out.line({28, 1});
             std::fprintf(stderr, "build error: %s\n", e.what());
         }
+        };
+        if (depth > 0) { run_once(0, true); }
+        run_once((int)depth, false);
         g_ctx = nullptr;
     }
 }  // namespace
